@@ -137,7 +137,7 @@ pub fn main(args: &[String]) -> i32 {
     for chunk in chunks {
         handles.push(
             std::thread::Builder::new()
-                .stack_size(256 << 20)
+                .stack_size(std::env::var("PFV_STACK_MB").ok().and_then(|s| s.parse::<usize>().ok()).unwrap_or(256) << 20)
                 .spawn(move || {
                     chunk
                         .iter()
